@@ -509,11 +509,33 @@ struct Out {
     pos: [i32; 4],
 }
 
+/// When set, `shape` runs every request through a buffer RECYCLED from an earlier, unrelated use (other direction,
+/// level and flags, a not-found glyph for variation selectors, text contexts): what the property says about an ignorable
+/// holds for every buffer that carries the same request (`hist=1` in the case line).
+static RECYCLED: std::sync::atomic::AtomicBool = std::sync::atomic::AtomicBool::new(false);
+
+fn recycled() -> bool {
+    RECYCLED.load(std::sync::atomic::Ordering::Relaxed)
+}
+
 fn shape(face: &Face, text: &[u32], dir: Option<Direction>, flags: u32, level: u8) -> Result<Vec<Out>, String> {
     let face = face.clone();
     let text = text.to_vec();
+    let hist = recycled();
     catch(std::panic::AssertUnwindSafe(move || {
-        let mut b = UnicodeBuffer::new();
+        let mut b = if hist {
+            let mut b0 = UnicodeBuffer::new();
+            b0.set_pre_context("x");
+            b0.push_str("a\u{FE00}b\u{200D}");
+            b0.set_post_context("y");
+            b0.set_direction(Direction::RightToLeft);
+            b0.set_flags(BufferFlags::PRESERVE_DEFAULT_IGNORABLES | BufferFlags::BEGINNING_OF_TEXT);
+            b0.set_cluster_level(level_of(2));
+            b0.set_not_found_variation_selector_glyph(2);
+            rustybuzz::shape(&face, &[], b0).clear()
+        } else {
+            UnicodeBuffer::new()
+        };
         for (i, cp) in text.iter().enumerate() {
             b.add(char::from_u32(*cp).unwrap(), i as u32);
         }
@@ -786,14 +808,15 @@ fn predicate_on(c: &Case, base: &[Out], with: &[u32], out: &[Out], full: bool) -
 
 fn case_line(c: &Case) -> String {
     format!(
-        "font={} flags={} level={} dir={} text={} pos={} cp={:X}",
+        "font={} flags={} level={} dir={} text={} pos={} cp={:X}{}",
         c.font.name,
         c.flags,
         c.level,
         dir_name(Some(c.dir)),
         fmt_text(c.text),
         c.pos,
-        c.cp
+        c.cp,
+        if recycled() { " hist=1" } else { "" }
     )
 }
 
@@ -834,6 +857,8 @@ fn search(args: &[String]) {
                             let level = r.below(3) as u8;
                             let c = Case { font, face: &faces[fi], flags, level, dir, text: &text, pos, cp: *cp };
                             evals += 1;
+                            // every fifth case goes through a recycled buffer
+                            RECYCLED.store(evals % 5 == 0, std::sync::atomic::Ordering::Relaxed);
                             {
                                 use std::hash::{Hash, Hasher};
                                 let mut h = std::collections::hash_map::DefaultHasher::new();
@@ -902,6 +927,7 @@ fn one(args: &[String]) {
         pos: arg_u64(args, "--pos", 0) as usize,
         cp,
     };
+    RECYCLED.store(arg_u64(args, "--hist", 0) != 0, std::sync::atomic::Ordering::Relaxed);
     let mut with = text.clone();
     with.insert(c.pos.min(text.len()), cp);
     let base = shape(&face, &text, Some(c.dir), c.flags, c.level);
